@@ -222,3 +222,28 @@ def check(F, rule, where=None, floor=0, floor_bsearch=0):
     rule.floor('two-argument comparators', n2, floor)
     rule.floor('binary_search_by closures', n1, floor_bsearch)
     return comps
+
+
+def getter_fields(F, path):
+    """trivial accessor `fn key(&self) -> T { self.a.b }`: the field projections [(owner type, name, index), ..] of the place
+    it returns (single straight-line block, the return place is a copy of a place rooted at the receiver), else None"""
+    H = F.get(path) if path else None
+    if H is None or H.kind == 'closure' or H.arg_count != 1:
+        return None
+    blocks = [b for b in H.blocks if not b.cleanup]
+    if len(blocks) != 1 or blocks[0].term.k != 'return':
+        return None
+    from facts import Operand
+    from cfg import CFG
+    cfg = CFG(H)
+    ret = [s for s in blocks[0].stmts if s.k == 'assign' and s.place.is_local and s.place.l == 0 and not s.place.p]
+    if len(ret) != 1 or ret[0].rv['k'] != 'use':
+        return None
+    o = Operand(ret[0].rv['o'])
+    pl = cfg.origin_of_operand(o) if o.place is not None else None
+    if pl is None or pl.l != 1:
+        return None
+    if any(e['k'] not in ('deref', 'f') for e in pl.p):
+        return None
+    fl = [(e.get('o'), e['n'], e['i']) for e in pl.p if e['k'] == 'f']
+    return fl or None
